@@ -1,0 +1,12 @@
+//go:build verif && !amd64
+
+package dsp
+
+// arm64 carries NEON kernels; every other architecture is pure Go.
+const verifHasAsm = verifIsArm64
+
+func verifSetAVX2(v bool) {}
+
+// Without an AVX2 switch there is a single optimised configuration: restoring
+// the table captured after the package's own init() is exact.
+func verifInstallAsm(avx2 bool) { verifDefault.install() }
